@@ -33,6 +33,7 @@ class Part:
     probe: Callable[[Any], ProbeResult]
     quick: int
     thorough: int
+    shrink: bool = True  # False for expensive probes: the smallest recorded failing input is the replay
 
 
 def _part_seed(seed: int, name: str) -> int:
@@ -85,6 +86,8 @@ def minimise(parts: list[Part], bucket: str, failure: dict) -> dict:
     if not origin:
         return failure
     part = {p.name: p for p in parts}[obj["part"]]
+    if not part.shrink:
+        return {"message": failure["message"], "replay": {"part": part.name, "input": obj["input"]}, "size": failure.get("size", 0)}
     sub = bucket.split(":", 1)[1]
 
     def probe(value):
